@@ -6,7 +6,7 @@ names=sys.argv[1].split(','); n=int(sys.argv[2]); steps=int(sys.argv[3]) if len(
 seed=int(sys.argv[4]) if len(sys.argv)>4 else 1
 acc=Acc(); srv=Server(); t=time.time(); tot=0
 for wi in range(n):
-    w=wrun.run_world(acc, srv, (seed,'dbg','quick',0,wi), lambda w,a:[getattr(monitors,x)(w,a) for x in names], None, steps)
+    w=wrun.run_world(acc, srv, (seed,'dbg','quick',0,wi), lambda w,a:[(monitors.Router(w,a,x.split(":")[1]) if x.startswith("Router") else getattr(monitors,x)(w,a)) for x in names], None, steps)
     tot+=w.nstep
 print('steps',tot,'in',round(time.time()-t,1),'s; evals',acc.evaluations,'classes',len(acc.classes))
 for k,v in sorted(acc.counters.items()): print(' ',k,v)
